@@ -1420,7 +1420,13 @@ class Model(Object):
     def __exit__(self, type, value, traceback) -> None:
         """Pop the top context manager and trigger the undo functions."""
         context = self._contexts.pop()
-        context.reset()
+        # Undo operations may be context-aware themselves. Whatever they record
+        # while being replayed must not end up in an enclosing context.
+        self._contexts.append(HistoryManager())
+        try:
+            context.reset()
+        finally:
+            self._contexts.pop()
 
     def merge(
         self,
